@@ -97,7 +97,7 @@ def base_specs(ctx):
 
 
 def run(ctx):
-    drivercheck.design(ctx)
+    drivercheck.design(ctx, wide=True)
     bases = base_specs(ctx)
     with mp.get_context("spawn").Pool(min(NCPU, len(bases)), maxtasksperchild=1) as pool:   # fresh processes
         refs = pool.map(reference, bases)
